@@ -175,3 +175,27 @@ func VerifHarness_C15_FhirTemporalParseFormatParse() {
 	}
 	verifrt.Reach("end")
 }
+
+// C15-L3d: a dateTime / instant element renders with the zone it carries, as its FHIR JSON does (the google/fhir
+// unmarshaller keeps the zone as written): 'Z' stays 'Z', a numeric offset stays that offset, a zone given by the name
+// UTC renders as +00:00. The instant is symbolic within a day; precision and zone come from menus.
+func VerifHarness_C15_ZoneSuffixIsKept() {
+	us := int64(1709164800000000) + int64(verifrt.NondetIntRange("secondOfDay", 0, 86399))*1000000
+	zone := []string{"Z", "UTC", "+00:00", "+05:30", "-08:00"}[verifrt.Choose("zone", 5)]
+	suffix := zone
+	if zone == "UTC" {
+		suffix = "+00:00"
+	}
+	var text string
+	if verifrt.NondetBool("instant") {
+		text = InstantToString(&dtpb.Instant{ValueUs: us, Timezone: zone, Precision: []dtpb.Instant_Precision{dtpb.Instant_SECOND, dtpb.Instant_MILLISECOND, dtpb.Instant_MICROSECOND}[verifrt.Choose("precision", 3)]})
+	} else {
+		text = DateTimeToString(&dtpb.DateTime{ValueUs: us, Timezone: zone, Precision: []dtpb.DateTime_Precision{dtpb.DateTime_SECOND, dtpb.DateTime_MILLISECOND, dtpb.DateTime_MICROSECOND}[verifrt.Choose("precision", 3)]})
+	}
+	ok := len(text) > len(suffix) && text[len(text)-len(suffix):] == suffix
+	if zone == "Z" {
+		ok = ok && text[len(text)-6] != '+' // not '+00:00' in disguise
+	}
+	verifrt.Assert(ok, "zone-renders-as-written")
+	verifrt.Reach("end")
+}
